@@ -31,6 +31,7 @@ type zzFactory struct {
 }
 
 func (f *zzFactory) Create(address string) (types.Backend, error) {
+	address = zzConcStr(address)
 	f.creates = append(f.creates, address)
 	m := zzmodel.Replicas[address]
 	if m == nil {
@@ -54,6 +55,7 @@ func (f *zzFactory) Create(address string) (types.Backend, error) {
 }
 
 func (f *zzFactory) SignalToAdd(target string, action string) error {
+	target = zzConcStr(target)
 	if f.onSignal != nil {
 		f.onSignal(target, action)
 	}
@@ -71,6 +73,7 @@ func (f *zzFactory) SignalToAdd(target string, action string) error {
 }
 
 func (f *zzFactory) VerifyReplicaAlive(target string) bool {
+	target = zzConcStr(target)
 	if f.dead[target] {
 		return false
 	}
